@@ -1,4 +1,83 @@
-From Coq Require Import List ZArith.
-From QV Require Import Loops.Model.
-Theorem c12_placeholder : True. Proof. exact I. Qed.
-Print Assumptions c12_placeholder.
+(** C12 — parallel loops cover the iteration space exactly once: the property theorems (full statements).
+    Model: Loops/Model.v (mirrors src/qloop.c); proofs: Loops/Proofs.v, Loops/ProofsCursor.v. *)
+From Coq Require Import List ZArith Bool Permutation.
+From QV Require Import Loops.Model Loops.Proofs Loops.ProofsCursor.
+Import ListNotations.
+Local Open Scope Z_scope.
+
+(** the split of qt_loop_balance_inner: for every start < stop and every worker count the ranges are non-empty,
+    consecutive and disjoint, their concatenation is [start,stop) ([tiling]), there are min(stop-start, workers) of
+    them and their sizes are [each] or [each+1] *)
+Theorem split_partition : forall start stop nw, start < stop -> 1 <= nw < 65536 ->
+  tiling (split start stop nw) start stop
+  /\ length (split start stop nw) = Z.to_nat (Z.min (stop - start) nw)
+  /\ exists each, 0 < each /\ Forall (fun r => snd r - fst r = each \/ snd r - fst r = each + 1) (split start stop nw).
+Proof. exact split_partition_proof. Qed.
+Print Assumptions split_partition.
+
+(** a tiling from a to b: every index of [a,b) lies in exactly one range and every other index in none *)
+Theorem tiling_exactly_once : forall l a b, tiling l a b ->
+  Forall (fun r => fst r < snd r) l /\
+  forall x, cover_count x l = if (a <=? x) && (x <? b) then 1%nat else 0%nat.
+Proof. exact (fun l a b H => conj (tiling_nonempty l a b H) (tiling_count l a b H)). Qed.
+Print Assumptions tiling_exactly_once.
+
+(** the tree rooted at wrapper 0 (new_id = my_id + 2^level) spawns every id in 0..maxworkers-1 exactly once, no other *)
+Theorem tree_spawns_all : forall mw x, 1 <= mw ->
+  count_occ Z.eq_dec (map fst (tree mw)) x = if (0 <=? x) && (x <? mw) then 1%nat else 0%nat.
+Proof. exact tree_spawns_all_proof. Qed.
+Print Assumptions tree_spawns_all.
+
+(** syncvar / aligned flavours: the return locations given to the wrappers are exactly the locations the caller waits on *)
+Theorem completion_slots_exact : forall st start stop nw, st = ALIGNED \/ st = SYNCVAR_T ->
+  start < stop -> 1 <= nw < 65536 ->
+  Permutation (map (fun t => snd (fst t)) (balance_tasks st start stop nw))
+              (map SlotIdx (waited_slots (maxworkers start stop nw))).
+Proof. exact completion_slots_proof. Qed.
+Print Assumptions completion_slots_exact.
+
+(** qt_loop_balance*: every index of [start,stop) is passed to the user function by exactly one wrapper *)
+Theorem balance_exactly_once : forall st start stop nw, start < stop -> 1 <= nw < 65536 ->
+  forall x, cover_count x (map snd (balance_tasks st start stop nw)) =
+            if (start <=? x) && (x <? stop) then 1%nat else 0%nat.
+Proof. exact balance_exactly_once_proof. Qed.
+Print Assumptions balance_exactly_once.
+
+(** qt_loop_spawner: one task per index of its range, task k runs [lo+k, lo+k+1) and returns into slot k *)
+Theorem spawner_one_task_per_index : forall lo hi, lo <= hi ->
+  tiling (map task_range (spawner lo hi)) lo hi
+  /\ Forall (fun t => snd (fst t) = fst (fst t) + 1) (spawner lo hi)
+  /\ map snd (spawner lo hi) = map Z.of_nat (seq 0 (Z.to_nat (hi - lo))).
+Proof. exact spawner_spec. Qed.
+Print Assumptions spawner_one_task_per_index.
+
+(** qt_loop* = balance over spawners: single-index tasks tiling [start,stop) *)
+Theorem qt_loop_indices : forall start stop nw, start < stop -> 1 <= nw < 65536 ->
+  tiling (map task_range (qt_loop_tasks start stop nw)) start stop
+  /\ Forall (fun t => snd (fst t) = fst (fst t) + 1) (qt_loop_tasks start stop nw).
+Proof. exact qt_loop_indices_proof. Qed.
+Print Assumptions qt_loop_indices.
+
+(** queue loops, all four cursor types ([p_fl p] is CHUNK, GUIDED, FACTORED or TIMED), every chunk size >= 1, every
+    number of worker tasks and shepherd placement ([sheps]), every activesheps >= 1, every schedule of single shared
+    accesses with arbitrary timer oracle bits: the ranges handed to the user function are never empty; every index of
+    [start, min(cursor, stop)) lies in exactly one of them and no other index in any; and when all workers have received
+    "no more" this is the whole of [start, stop).  (When qthread_num_workers() = 1 the code takes the non-atomic
+    shortcut, and qt_loop_queue_run creates one task.) *)
+Theorem claims_tile : forall (p : params) (start : Z),
+  1 <= p_sheps p -> 1 <= p_chunk p -> (p_fl p = TIMED -> 1 <= p_step p) -> start <= p_stop p ->
+  forall (sheps : list Z) (lb0 : Z) (sched : list (nat * bool)),
+  (p_nw p = 1 -> (length sheps <= 1)%nat) ->
+  let s := run p (init p start sheps lb0) sched in
+  Forall (fun r => fst r < snd r) (map snd (s_out s)) /\
+  (forall x, cover_count x (map snd (s_out s)) =
+             if (start <=? x) && (x <? Z.min (s_cur s) (p_stop p)) then 1%nat else 0%nat) /\
+  (sheps <> [] -> all_done s = true ->
+   forall x, cover_count x (map snd (s_out s)) = if (start <=? x) && (x <? p_stop p) then 1%nat else 0%nat).
+Proof. exact claims_tile_all. Qed.
+Print Assumptions claims_tile.
+
+(** the replay unit of the correspondence (one interposed CAS / fetch-add per grant) is a micro-step schedule *)
+Theorem grant_is_run : forall p s tid slow, exists sched, grant p s tid slow = run p s sched.
+Proof. exact grant_is_run_proof. Qed.
+Print Assumptions grant_is_run.
